@@ -15,7 +15,17 @@ pub struct Viol {
 }
 
 pub fn viol(class: &str, what: String, case: Value) -> Viol {
+    VIOLS_CREATED.fetch_add(1, std::sync::atomic::Ordering::Relaxed);
     Viol { class: class.to_string(), what, case }
+}
+/// Flood control. A tree on which nearly every explored case fails (e.g. every call returns `Err` after the
+/// n-th) would otherwise make an engine build millions of violation records. Once more than `FLOOD` have been
+/// created, engines that poll `flooded()` skip their remaining cases; the evidence then says so
+/// (`stopped_early_after_violations`, `exhaustive: false`). The verdict is unaffected: it is a violation anyway.
+pub static VIOLS_CREATED: std::sync::atomic::AtomicU64 = std::sync::atomic::AtomicU64::new(0);
+pub const FLOOD: u64 = 4000;
+pub fn flooded() -> bool {
+    VIOLS_CREATED.load(std::sync::atomic::Ordering::Relaxed) > FLOOD
 }
 
 /// Collector shared by rayon workers. Keeps the first `cap` violations per class (deterministic
@@ -160,6 +170,10 @@ pub fn finish(verif_dir: &str, prop: &str, tier: &str, seed: i64, start: Instant
     }
     let nviol: u64 = counts.values().sum();
     rep.coverage.insert("violation_classes".into(), json!(counts));
+    if flooded() {
+        rep.coverage.insert("stopped_early_after_violations".into(), json!(VIOLS_CREATED.load(std::sync::atomic::Ordering::Relaxed)));
+        rep.coverage.insert("exhaustive".into(), json!(false));
+    }
     if !rep.coverage.contains_key("samples") {
         rep.coverage.insert("samples".into(), json!(["(no sample recorded)"]));
     }
